@@ -317,6 +317,39 @@ Definition g_ondisk (b : bytes) : option ((N -> bool -> bool -> bool -> bool -> 
 Definition g_ondisk_ce_size (extended : bool) (len : nat) : nat :=
   ((40 + hs + 2 + (if extended then 2 else 0) + len + 8) / 8 * 8)%nat.
 
+(* the name of a version-4 entry: strip length (varint), then the bytes to append, NUL-terminated *)
+Definition g_name_v4 (prev : option bytes) (len : N) (b2 : bytes) : gres (bytes * bytes) :=
+  match g_decode_varint b2 with GErr e => GErr e | GOk (strip, b3) =>
+  match (match prev with
+         | None => GOk O                       (* beginning of a block: the strip length is ignored *)
+         | Some p => if N.of_nat (List.length p) <? strip then GErr GMalformedName
+                     else GOk (List.length p - N.to_nat strip)%nat
+         end) with GErr e => GErr e | GOk copy_len =>
+  match (if len =? 4095 then match g_strlen b3 with None => GErr GOob | Some l => GOk (l + copy_len)%nat end
+         else GOk (N.to_nat len)) with GErr e => GErr e | GOk nlen =>
+    if (nlen <? copy_len)%nat then GErr GOob else         (* memcpy(len + 1 - copy_len) with a wrapped size *)
+    match take (nlen - copy_len) b3 with None => GErr GOob | Some (suffix, b4) =>
+    match b4 with [] => GErr GOob | t :: b5 =>
+      let name := firstn copy_len (match prev with Some p => p | None => [] end) ++ suffix in
+      (* the byte copied as the terminator is not checked by git; a name that is not a C string is not transcribed *)
+      if negb (t =? 0) || negb (g_nonul name) then GErr GUnspec else GOk (name, b5)
+    end end
+  end end end.
+
+(* the name of a version-2/3 entry; the entry ends at ondisk_ce_size ([hdr] bytes precede the name) *)
+Definition g_name_v23 (extended : bool) (hdr : nat) (len : N) (b2 : bytes) : gres (bytes * bytes) :=
+  match (if len =? 4095 then match g_strlen b2 with None => GErr GOob | Some l => GOk l end
+         else GOk (N.to_nat len)) with GErr e => GErr e | GOk nlen =>
+    match take nlen b2 with None => GErr GOob | Some (name, b3) =>
+    match b3 with [] => GErr GOob | t :: _ =>
+      if negb (t =? 0) || negb (g_nonul name) then GErr GUnspec else
+      match take (g_ondisk_ce_size extended nlen - hdr) b2 with
+      | None => GErr GOob
+      | Some (_, b4) => GOk (name, b4)
+      end
+    end end
+  end.
+
 Definition g_create_from_disk (ver : N) (prev : option bytes) (b : bytes) : gres (gentry * bytes) :=
   match g_ondisk b with None => GErr GOob | Some (mk, flags, b1) =>
   let len := flags mod 4096 in                      (* flags & CE_NAMEMASK *)
@@ -331,35 +364,10 @@ Definition g_create_from_disk (ver : N) (prev : option bytes) (b : bytes) : gres
   | GOk (ita, skip, b2) =>
     let mk' := mk ((flags / 4096) mod 4) extended (N.testbit flags 15) ita skip in
     let hdr := (40 + hs + 2 + (if extended then 2 else 0))%nat in
-    if ver =? 4 then
-      match g_decode_varint b2 with GErr e => GErr e | GOk (strip, b3) =>
-      match (match prev with
-             | None => GOk O                       (* beginning of a block: the strip length is ignored *)
-             | Some p => if N.of_nat (List.length p) <? strip then GErr GMalformedName
-                         else GOk (List.length p - N.to_nat strip)%nat
-             end) with GErr e => GErr e | GOk copy_len =>
-      match (if len =? 4095 then match g_strlen b3 with None => GErr GOob | Some l => GOk (l + copy_len)%nat end
-             else GOk (N.to_nat len)) with GErr e => GErr e | GOk nlen =>
-        if (nlen <? copy_len)%nat then GErr GOob else         (* memcpy(len + 1 - copy_len) with a wrapped size *)
-        match take (nlen - copy_len) b3 with None => GErr GOob | Some (suffix, b4) =>
-        match b4 with [] => GErr GOob | t :: b5 =>
-          let name := firstn copy_len (match prev with Some p => p | None => [] end) ++ suffix in
-          (* the byte copied as the terminator is not checked by git; a name that is not a C string is not transcribed *)
-          if negb (t =? 0) || negb (g_nonul name) then GErr GUnspec else GOk (mk' name, b5)
-        end end
-      end end end
-    else
-      match (if len =? 4095 then match g_strlen b2 with None => GErr GOob | Some l => GOk l end
-             else GOk (N.to_nat len)) with GErr e => GErr e | GOk nlen =>
-        match take nlen b2 with None => GErr GOob | Some (name, b3) =>
-        match b3 with [] => GErr GOob | t :: _ =>
-          if negb (t =? 0) || negb (g_nonul name) then GErr GUnspec else
-          match take (g_ondisk_ce_size extended nlen - hdr) b2 with
-          | None => GErr GOob
-          | Some (_, b4) => GOk (mk' name, b4)
-          end
-        end end
-      end
+    match (if ver =? 4 then g_name_v4 prev len b2 else g_name_v23 extended hdr len b2) with
+    | GErr e => GErr e
+    | GOk (name, b') => GOk (mk' name, b')
+    end
   end end.
 
 (* load_cache_entry_block *)
